@@ -584,6 +584,20 @@ def jump_from_sibling(times: int = 1) -> dict:
     }
 
 
+def skip_in_later_iteration(times: int = 1) -> dict:
+    """a -> b -> c[jump back to a]; b is enabled by an expression over a's output, which is true in the first
+    iteration and false afterwards: b runs, is re-armed by the jump, and is then skipped."""
+    return {
+        "name": f"skip_later{times}",
+        "confluent": True,
+        "stages": [
+            st("a", [], [{"kind": "ok", "raw_by_iter": {"0": {"go": True}, **{str(i): {"go": False} for i in range(1, times + 1)}}, "out": ["a_o"]}]),
+            st("b", ["a"], [dict(OK, out=["b_o"])], ctx={"stageEnabled": {"type": "expression", "expression": "a.go"}}),
+            st("c", ["b"], [{"kind": "jump", "to": "a", "times": times, "by_iter": True, "out": ["c_o"]}]),
+        ],
+    }
+
+
 def restart_forward_jump() -> dict:
     """a -> b -> c -> d all succeed; only when `a` is run again (operator restart) does it
     jump forward to c, over the already completed b."""
